@@ -345,6 +345,29 @@ impl Sut {
     }
 }
 
+#[cfg(not(huginn_net_verif_sched))]
+impl Sut {
+    /// Fault "the capture source ends and another one starts" (rotated capture files, an interface that went
+    /// down and came back): the analyzer's own packet loop is run to completion on a source that ends at once,
+    /// then the same instance goes on receiving packets.
+    pub fn capture_boundary(&mut self) -> Result<(), String> {
+        use std::sync::mpsc;
+        macro_rules! empty_run {
+            ($a:expr, $errty:ty) => {{
+                let (tx, _rx) = mpsc::channel();
+                let src = || -> Option<Result<Vec<u8>, $errty>> { None };
+                $a.verif_process_with(src, tx, None).map_err(|e| format!("{}", e))
+            }};
+        }
+        match self {
+            Sut::Unified(a, _) => empty_run!(a, huginn_net::error::HuginnNetError),
+            Sut::Tcp(a, _) => empty_run!(a, huginn_net_tcp::HuginnNetTcpError),
+            Sut::Http(a) => empty_run!(a, huginn_net_http::HuginnNetHttpError),
+            Sut::Tls(a) => empty_run!(a, huginn_net_tls::HuginnNetTlsError),
+        }
+    }
+}
+
 fn err_variant(dbg: &str) -> String {
     dbg.split('(').next().unwrap_or("").to_string()
 }
